@@ -466,6 +466,10 @@ def server_app_ok(tr, old_state, to_app):
 
 def server_idle_ok(tr, apdu, to_net, to_app):
     """a new request: the client's limits are recorded from its header (C12), then it is handed up or reassembly starts"""
+    if apdu.apduMaxResp > 5:
+        # a reserved max-APDU code: answered with an abort, nothing is kept (C10)
+        return (tr.invokeID == apdu.apduInvokeID and tr.state == ABORTED and len(to_app) == 0 and len(to_net) == 1 and to_net[0][0].apduType == 7
+                and to_net[0][0].apduSrv == True)
     if not (tr.invokeID == apdu.apduInvokeID and tr.segmented_response_accepted == apdu.apduSA
             and tr.maxSegmentsAccepted == sa_spec.max_segments_value(apdu.apduMaxSegs)):
         return False
@@ -486,17 +490,18 @@ def server_idle_ok(tr, apdu, to_net, to_app):
             and len(to_net) == 1 and is_segack(to_net[0][0], 0, 1, tr.invokeID, 0, W))
 
 for _seg in SEG:
-    contract("bacpypes.appservice:ServerSSM.indication", name="bacpypes.appservice:ServerSSM.indication[IDLE, ConfirmedRequest, local %s]" % _seg,
+  for _codes, _lo, _hi in (("", 0, 5), (", reserved max-APDU code", 6, 15)):
+    contract("bacpypes.appservice:ServerSSM.indication", name="bacpypes.appservice:ServerSSM.indication[IDLE, ConfirmedRequest, local %s%s]" % (_seg, _codes),
         params={"self": SSMObj(ServerSSM, states=(IDLE,), context=Const(None), full=True, live=True, device_info=DeviceInfoShape(npdu=False),
                                maxApduLengthAccepted=Const(1024), maxSegmentsAccepted=Const(2), segmentationSupported=Const(_seg), **_FRESH),
-                "apdu": ConfReq(apduWin=Int(1, 127), apduMaxResp=Int(0, 5))},
+                "apdu": ConfReq(apduWin=Int(1, 127), apduMaxResp=Int(_lo, _hi))},
         requires=["self.isScheduled == False", "others_kept(self)",
                   "not apdu.apduSeg or apdu.apduSeq == 0"],          # a transaction starts with the first segment
         ensures=["inv_server(self)", "self.state != IDLE",        # a transaction never stays IDLE: it ends or has a timer
                  "server_app_ok(self, IDLE, trace('to_app'))", "frames_ok(self, trace_then('to_net'))",
                  "server_idle_ok(self, apdu, trace('to_net'), trace('to_app'))"],
         modifies=_SERVER_MOD, max_paths=40000,
-        note="max-APDU codes 0..5 (6..15 are reserved: decode_max_apdu_length_accepted raises ValueError for them, see NOT_DECIDED)")
+        note="max-APDU codes %d..%d%s" % (_lo, _hi, " (reserved: answered with an abort, nothing is kept)" if _lo else ""))
 
 _SERVER_IN = {
     (SEGMENTED_REQUEST, "ConfirmedRequest"): lambda: ConfReq(),
